@@ -157,6 +157,9 @@ def corpus():
         ("n_width_ref", top([i("i0", [["a", ["sig", "u"]]]), i("i1", [["a", two(ref, s)]])], [["s", 1], ["u", 2]])),
         ("n_nc_ref", top([i("i0", [["a", ["nc", 1, None]]]), i("i1", [["a", two(bit(ref, 0), s)]])], [["s", 1]])),
         ("n_nc_ref", top([i("i0", [["a", ["nc", 1, None]]]), i("i1", [["a", two(s, s)]]), i("a0", [["a", ["sl", ref, ["s", None, None, -1]]]], n=2)], [["s", 1]])),
+        # the witness of fixes/C02F-1: the no-connected port is referred to inside a concatenation whose part a slice then drops -
+        # before the repair elaborate, to_proto and netlist all returned
+        ("n_nc_ref", top([i("i0", [["a", ["nc", 1, None]]]), i("i1", [["a", ["sl", ["cat", [s, s, ref]], ["s", 0, 2, None]]]])], [["s", 1]])),
         ("nc_inside", top([i("i0", [["a", two(s, ["nc", 1, None])]])], [["s", 1]])),                                     # the constructors refuse
         ("missing", top([i("i0", []), i("i1", [["a", two(s, s)]])], [["s", 1]])),
     ]
